@@ -208,7 +208,7 @@ def shard(ctx):
             ins = W.gen_inputs(info, meta, rng, nsets)
             prep = W.Prepared(proc, [x[0] for x in ins])
             items.append((info, pidx, pl, src, meta, ins, prep))
-        nb = W.execute_batch([it[-1] for it in items], ctx.scratch / f"b{b0}")
+        nb = W.execute_batch([it[-1] for it in items], ctx.scratch / f"b{b0}", max_rebuilds=1)
         ctx.stat("builds", nb)
         for info, pidx, pl, src, meta, ins, prep in items:
             _report(ctx, W, harness, info, pidx, pl, src, meta, ins, prep.res)
@@ -217,22 +217,23 @@ def shard(ctx):
 def _report(ctx, W, harness, info, pidx, pl, src, meta, ins, r):
     key = f"instr|{info.name}|"
     specs = [x[0] for x in ins]
-    ctx.stat(key + "status|" + str(r.status))
     if r.unclean:
         ctx.stat(key + "unclean_inputs", r.unclean)
         ctx.stat("unclean_inputs", r.unclean)
     if r.status in ("exo_reject", "no_input", "driver_error", "timeout", None):
+        ctx.stat(key + "status|" + str(r.status))
         ctx.stat(key + "why|" + _sanitize(r.detail))
         if r.status == "timeout":
             ctx.inconclusive("watchdog")
         return
     verdicts = _judge(W, info, meta, harness, specs, r)
     if any(v[0] == "harness" for v in verdicts):
+        # not attributed to the instruction (its own load/store tests report the pair)
         ctx.stat(key + "status|harness_untrusted")
         ctx.stat(key + "why|" + _sanitize([v for v in verdicts if v[0] == "harness"][0][3]))
-        verdicts = [v for v in verdicts if v[0] != "harness"]
-        if not verdicts:
-            return
+        ctx.stat("harness_untrusted")
+        return
+    ctx.stat(key + "status|" + str(r.status))
     if r.ninputs:
         ctx.stat(key + "placements")
         ctx.stat(key + "inputs", r.ninputs)
@@ -241,10 +242,10 @@ def _report(ctx, W, harness, info, pidx, pl, src, meta, ins, r):
         ctx.stat("inputs_run", r.ninputs)
         ctx.stat("inputs_exact_class", r.nexact)
         ctx.stat("evaluations", r.ninputs)
-        for sp, tags in ins:
-            for c, v in tags["ctl"].items():
+        for k in r.compared:
+            for c, v in ins[k][1]["ctl"].items():
                 ctx.stat(key + f"ctl|{c}={v}")
-        for k in range(len(specs)):
+        for k in r.compared:
             ctx.distinct(common.jhash([info.name, pl, specs[k].to_json()]), nontrivial=True)
     if r.napprox_mismatch:
         ctx.stat(key + "approx_mismatch", r.napprox_mismatch)
